@@ -121,12 +121,25 @@ def select_cases(pid, tier, seed, cases):
     spec = PROPS[pid]
     if spec.get('prepare'):
         cases = spec['prepare'](cases, tier, seed)
-    cap = spec.get('cap', {}).get(tier)
+    cap = spec.get('cap', {}).get(tier, 30000 if tier == 'thorough' else None)
     if cap and len(cases) > cap:
+        # keep small families whole, sample the large ones proportionally (seeded)
+        byfam = {}
+        for cid, c in cases:
+            byfam.setdefault(cid.rsplit('-', 1)[0], []).append((cid, c))
+        small = [f for f, cs in byfam.items() if len(cs) <= 1500]
+        budget = max(0, cap - sum(len(byfam[f]) for f in small))
+        large_total = sum(len(cs) for f, cs in byfam.items() if f not in small)
         rnd = random.Random(seed)
-        idx = sorted(rnd.sample(range(len(cases)), cap))
+        out = []
+        for f, cs in byfam.items():
+            if f in small:
+                out += cs
+            else:
+                k = max(200, budget * len(cs) // max(1, large_total))
+                out += [cs[i] for i in sorted(rnd.sample(range(len(cs)), min(k, len(cs))))]
         PROPS[pid]['_sampled'] = True
-        return [cases[i] for i in idx]
+        return out
     return cases
 
 
@@ -531,7 +544,7 @@ READABLE = ['uvl', 'json', 'glencoe', 'fide']
 
 
 def env_matrix(tier):
-    seeds = ['0', '1', '2'] if tier == 'quick' else [str(i) for i in range(16)]
+    seeds = ['0', '1', '2'] if tier == 'quick' else [str(i) for i in range(8)]
     locs = [('C', '0')] if tier == 'quick' else [('C', '0'), ('POSIX', '0'), ('C.UTF-8', '1'), ('C', '1')]
     out = []
     for hs in seeds:
